@@ -267,10 +267,10 @@ class Timed(Monitor):
         import configparser
         import os
 
-        from .system import REPO
+        from .system import CONFIG_PATH
 
         c = configparser.ConfigParser()
-        c.read(os.path.join(REPO, "config.ini"))
+        c.read(CONFIG_PATH)
         d_eco, d_open, recover = float(c["heating"]["delay_to_eco"]), float(c["heating"]["delay_to_open"]), float(c["heating"]["recover_period"])
         s = r.sys
         pin = {n: s.pins[n][0] for n in ("heating", "ph", "cl", "drain", "backwash")}
@@ -367,10 +367,10 @@ class PhaseTimes(Monitor):
         import configparser
         import os
 
-        from .system import REPO
+        from .system import CONFIG_PATH
 
         c = configparser.ConfigParser()
-        c.read(os.path.join(REPO, "config.ini"))
+        c.read(CONFIG_PATH)
         f = lambda sec, k: float(c[sec][k])  # noqa: E731
 
         def attr(name):
@@ -456,7 +456,90 @@ class PhaseTimes(Monitor):
             self.judge(k, t0, bound, now, "still in it at the end of the run")
 
 
-SETTLED_MONITORS = [C01, C02, C05i, C06a, C07a, C08, C12a, C13a, C15a, C17a, Liveness, Timed, PhaseTimes]
+class WinterCycle(Monitor):
+    """C17 on the pin trace (virtual timestamps): in wintering mode, while the temperature the pump's policy looks at is at or
+    below its threshold (or unknown), the pump runs at least once every configured period + one poll (2 min).  Oracle values
+    come from the configuration file, not from the code's constants."""
+
+    pid = "C17"
+
+    def finish(self, r):
+        import configparser
+
+        from .system import CONFIG_PATH
+
+        if r.world.deadlock is not None or not (_alive(r, "Filtration") and _alive(r, "Swim") and _alive(r, "TemperatureReader")):
+            return
+        c = configparser.ConfigParser()
+        c.read(CONFIG_PATH)
+        wn = c["wintering"]
+        s = r.sys
+        var = set(s.pins["variable"][1:])
+        swim = set(s.pins["swim"])
+        slack = 15.0 + sum([float(a[2]) for a in getattr(r, "actions", []) if a and a[0] in ("lag", "lagcmd", "postlag")] + [0.0])
+        pumps = {
+            "F": {"pins": var, "key": "temperature_air", "period": float(wn["period"]), "thr": float(wn["only_below"]), "name": "circulation pump"},
+            "S": {"pins": swim, "key": "temperature_ncc", "period": float(wn["swim_period"]), "thr": float(wn["swim_only_below"]), "name": "counter-current pump"},
+        }
+        temps = {k: v._value for k, v in s.s_temp.items()}
+        # initial temperatures are those of the first log instant: replay the temp events from the defaults
+        temps = {"temperature_pool": 24.5, "temperature_local": 20.6, "temperature_air": 19.4, "temperature_ncc": 21.3}
+        temps.update((getattr(r, "opts_temps", None) or {}))
+        in_winter = False
+        user_swim = False
+        on = {"F": set(), "S": set()}
+        ref = {"F": None, "S": None}
+
+        def cold(k):
+            v = temps.get(pumps[k]["key"])
+            return v is None or v <= pumps[k]["thr"]
+
+        def check(k, t):
+            if ref[k] is not None and (t - ref[k]) / 1e6 > pumps[k]["period"] + 120.0 + slack and not (k == "S" and user_swim):
+                r.report("C17", f"no-stir-within-period:{k}", f"wintering, {pumps[k]['key']} at or below {pumps[k]['thr']} (or unknown): the {pumps[k]['name']} did not run for {(t - ref[k]) / 1e6:.0f} s (configured period {pumps[k]['period']:.0f} s + one poll of 120 s)")
+                ref[k] = None
+
+        for (t, kind, data) in r.world.log:
+            for k in pumps:
+                check(k, t)
+            if kind == "publish" and data[0] == "/status/filtration/state":
+                w = str(data[1]).startswith("wintering")
+                if w and not in_winter:
+                    for k in pumps:
+                        ref[k] = t if cold(k) and not on[k] else None
+                if not w:
+                    ref = {"F": None, "S": None}
+                    user_swim = False
+                in_winter = w
+            elif kind == "mqtt" and data[0] == "/settings/swim/mode" and in_winter:
+                user_swim = True
+            elif kind == "temp":
+                before = {k: cold(k) for k in pumps}
+                temps[data[0]] = data[1]
+                for k in pumps:
+                    if in_winter and not on[k]:
+                        if cold(k) and not before[k]:
+                            ref[k] = t
+                        elif not cold(k):
+                            ref[k] = None
+            elif kind == "gpio":
+                p, v = data
+                for k in pumps:
+                    if p in pumps[k]["pins"]:
+                        was = bool(on[k])
+                        if v is False:
+                            on[k].add(p)
+                        else:
+                            on[k].discard(p)
+                        if on[k]:
+                            ref[k] = None
+                        elif was and in_winter and cold(k):
+                            ref[k] = t
+        for k in pumps:
+            check(k, r.world.now_us)
+
+
+SETTLED_MONITORS = [C01, C02, C05i, C06a, C07a, C08, C12a, C13a, C15a, C17a, Liveness, Timed, PhaseTimes, WinterCycle]
 
 
 def all_monitors():
